@@ -17,10 +17,65 @@ type C11 struct {
 	BaseChecker
 	firstPut map[uint64]map[string]int // basket -> batch denom -> step of first deposit
 	nt       bool
+	// ghost: the date criterion of each basket as set by its Create message / the accepted
+	// UpdateDateCriteria messages (rendered canonically; "" = none)
+	crit map[string]string
 }
 
 func init() {
-	RegisterChecker("C11", func() Checker { return &C11{firstPut: map[uint64]map[string]int{}} })
+	RegisterChecker("C11", func() Checker { return &C11{firstPut: map[uint64]map[string]int{}, crit: map[string]string{}} })
+}
+
+// critKey renders a criterion canonically: exactly what is set, nothing else.
+func critKey(minSet bool, minS int64, minN int32, winSet bool, winS int64, winN int32, years uint32) string {
+	out := ""
+	if minSet {
+		out += fmt.Sprintf("min=%d.%09d;", minS, minN)
+	}
+	if winSet {
+		out += fmt.Sprintf("window=%d.%09d;", winS, winN)
+	}
+	if years != 0 {
+		out += fmt.Sprintf("years=%d;", years)
+	}
+	return out
+}
+
+func critOfState(bk *basketv1.Basket) string {
+	dc := bk.DateCriteria
+	if dc == nil {
+		return ""
+	}
+	var ms, ws int64
+	var mn, wn int32
+	if dc.MinStartDate != nil {
+		ms, mn = dc.MinStartDate.Seconds, dc.MinStartDate.Nanos
+	}
+	if dc.StartDateWindow != nil {
+		ws, wn = dc.StartDateWindow.Seconds, dc.StartDateWindow.Nanos
+	}
+	return critKey(dc.MinStartDate != nil, ms, mn, dc.StartDateWindow != nil, ws, wn, dc.YearsInThePast)
+}
+
+func critOfMsg(dc *baskettypes.DateCriteria) string {
+	if dc == nil {
+		return ""
+	}
+	var ms, ws int64
+	var mn, wn int32
+	if dc.MinStartDate != nil {
+		ms, mn = dc.MinStartDate.Seconds, dc.MinStartDate.Nanos
+	}
+	if dc.StartDateWindow != nil {
+		ws, wn = dc.StartDateWindow.Seconds, dc.StartDateWindow.Nanos
+	}
+	return critKey(dc.MinStartDate != nil, ms, mn, dc.StartDateWindow != nil, ws, wn, dc.YearsInThePast)
+}
+
+func (c *C11) Init(w *World) {
+	for _, bk := range w.Cur.Baskets {
+		c.crit[bk.BasketDenom] = critOfState(bk)
+	}
 }
 func (c *C11) ID() string { return "C11" }
 
@@ -49,6 +104,23 @@ func (c *C11) AfterTx(w *World, t *TxCtx) {
 	}
 	if !t.Res.OK {
 		return
+	}
+	// the stored criterion of every basket is what its Create / the accepted updates set
+	for i, m := range t.Msgs {
+		switch msg := m.(type) {
+		case *baskettypes.MsgCreate:
+			if r, _ := respAt(t, i).(*baskettypes.MsgCreateResponse); r != nil {
+				c.crit[r.BasketDenom] = critOfMsg(msg.DateCriteria)
+			}
+		case *baskettypes.MsgUpdateDateCriteria:
+			c.crit[msg.Denom] = critOfMsg(msg.NewDateCriteria)
+		}
+	}
+	for _, bk := range post.Baskets {
+		if want, ok := c.crit[bk.BasketDenom]; ok && want != critOfState(bk) {
+			w.Violate("R1", "stored-date-criterion-differs-from-what-was-set", "basket %s: stored date criterion %q, its Create / the accepted UpdateDateCriteria messages set %q (a stale or extra field decides admission)", bk.BasketDenom, critOfState(bk), want)
+			return
+		}
 	}
 	for i, m := range t.Msgs {
 		switch msg := m.(type) {
